@@ -188,6 +188,8 @@ class _Worker:
             return None
         if cmd.closing_quote != closer:
             return None
+        if cmd.opening_quote not in STYLES:
+            return None  # e.g. r' followed by two typed quotes is read as a raw triple quote: outside the declared style set
         raw = cmd.raw_prefix
         if line[:cursor] != "rec " + raw or line[cursor:] != closer:
             return None
